@@ -21,7 +21,7 @@ func main() {
 	mode := os.Args[2]
 	iters, _ := strconv.Atoi(os.Args[3])
 	var err error
-	tmpDir, err = os.MkdirTemp("", "c02race-")
+	tmpDir, err = os.MkdirTemp(os.Getenv("VLIB_SCRATCH"), "c02race-") // removed with the run's scratch dir
 	if err != nil {
 		panic(err)
 	}
